@@ -43,10 +43,10 @@ DRIVERS = ['refine', 'diff', 'all_edits', 'edited_cost', 'non_zero', 'possible']
 
 def jobs(tier):
     if tier == 'quick':
-        plan = [('json', 10, 4, 260), ('nested', 0, 0, 40), ('multiset', 8, 0, 30), ('xml', 5, 0, 25), ('plist', 8, 0, 15), ('skewed', 6, 0, 120), ('padded', 0, 0, 60), ('pyobj', 8, 0, 30), ('growing', 0, 0, 150)]
+        plan = [('json', 10, 4, 260), ('nested', 0, 0, 40), ('multiset', 8, 0, 30), ('xml', 5, 0, 25), ('plist', 8, 0, 15), ('skewed', 6, 0, 120), ('padded', 0, 0, 60), ('pyobj', 8, 0, 30), ('growing', 0, 0, 150), ('huge', 0, 0, 4)]
     else:
         plan = [('json', 25, 7, 3000), ('nested', 0, 0, 600), ('multiset', 10, 0, 600), ('xml', 8, 0, 500),
-                ('plist', 12, 0, 300), ('skewed', 8, 0, 1200), ('padded', 0, 0, 600), ('pyobj', 12, 0, 600), ('growing', 0, 0, 1500)]
+                ('plist', 12, 0, 300), ('skewed', 8, 0, 1200), ('padded', 0, 0, 600), ('pyobj', 12, 0, 600), ('growing', 0, 0, 1500), ('huge', 0, 0, 60)]
     js = []
     for s in range(16):
         for fam, ml, mw, n in plan:
@@ -57,7 +57,8 @@ def jobs(tier):
 def run_job(job, seed, sink):
     from .c01 import strategy_for
     base = strategy_for(job)
-    strat = st.tuples(base, st.sampled_from(DRIVERS)).map(lambda t: {**t[0], 'driver': t[1]})
+    drivers = [d for d in DRIVERS if d != 'possible'] if job['family'] == 'huge' else DRIVERS    # ('possible' re-builds with list edits off)
+    strat = st.tuples(base, st.sampled_from(drivers)).map(lambda t: {**t[0], 'driver': t[1]})
     hyp_drive(strat, job['n'], seed, sink)
 
 
